@@ -959,6 +959,13 @@ class Interp:
 
     def st_Delete(self, st, frame):
         for t in st.targets:
+            if isinstance(t, ast.Subscript) and isinstance(t.slice, ast.Slice):
+                base = self.eval(t.value, frame)
+                if isinstance(base, Lst) and not getattr(base, "is_gen", False) and all(x is None for x in (t.slice.lower, t.slice.upper, t.slice.step)):
+                    del base.items[:]
+                    self.emit("del", st, base=base, key=Const(None))
+                    continue
+                raise Undecided(f"del of a slice other than xs[:] (line {st.lineno})")
             if isinstance(t, ast.Subscript):
                 base = self.eval(t.value, frame)
                 key = self.eval(t.slice, frame)
